@@ -462,6 +462,48 @@ func runC19(c *Check) {
 	c.Doc("C19-R9", "CT: the key file is written by replacing the whole file (os.WriteFile, os.Create, or OpenFile with O_TRUNC/O_EXCL): an import over a longer file must not leave its tail behind.")
 	ruleWritersReplaceWholeFile(c, p, "C19-R9", []string{filePkg}, 1,
 		"importing a key over a longer existing key file leaves the old tail after the new JSON object; the import reports success, the old key is destroyed and the new file cannot be loaded")
+	// ---- R10: the key file is removed only by the call that wrote it. In the key-file package
+	// every os.Remove is reachable only after this call's own write of the file was attempted:
+	// a clean-up that also runs on the refusal path ("key file already exists") deletes the
+	// existing proposer key.
+	c.Doc("C19-R10", "EO: every removal of a file in the key-file code is preceded, on all paths, by that call's own attempt to write the file (a refusal because the file exists never deletes it).")
+	{
+		nRm := 0
+		for _, fn := range p.Funcs {
+			pk := fnPkg(fn)
+			if pk == nil || pk.Pkg.Path() != filePkg || fn.Parent() != nil || fn.Blocks == nil {
+				continue
+			}
+			g := BuildECFG(p, fn, ExpandOpts{MaxDepth: 1})
+			rms := g.Select(func(x *Node) bool { return CallName(x) == "os.Remove" || CallName(x) == "os.RemoveAll" })
+			if len(rms) == 0 {
+				continue
+			}
+			c.NoteGraph(g)
+			wrote := g.Select(func(x *Node) bool {
+				cn := CallName(x)
+				if cn == "os.WriteFile" || cn == "os.Create" || cn == "os.OpenFile" {
+					return true
+				}
+				cc := CallCommonOf(x)
+				if cc == nil || cc.StaticCallee() == nil || !p.InRepo(cc.StaticCallee()) {
+					return false
+				}
+				return callsNamed(cc.StaticCallee(), func(n string) bool { return n == "os.WriteFile" || n == "os.Create" || n == "os.OpenFile" })
+			})
+			for _, rm := range rms {
+				nRm++
+				rm := rm
+				inst := fnShort(fn) + " ⟂ removes-only-what-it-wrote"
+				c.Decide("C19-R10", inst, fnName(fn), p.InstrPos(rm.In), "the file is removed only after this call attempted to write it",
+					"the file can be removed on a path where this call never wrote it (e.g. the refusal because a key file already exists): the existing proposer key is deleted", g,
+					g.PathAvoiding([]*Node{g.Entry}, func(x *Node) bool { return x == rm }, nodeSet(wrote)))
+			}
+		}
+		if nRm == 0 {
+			c.OK("C19-R10", "key-file ⟂ no-removal", "", "", "the key-file code removes no file", false)
+		}
+	}
 	c.Doc("C19-R5", "VP+EO: a buffer is zeroed outside a defer only after the last use of every value that may alias it.")
 	ruleWipeAfterLastUse(c, p, keyFns)
 	c.MinInstances("C19-R1", 1)
